@@ -1163,6 +1163,10 @@ def sp_set(it, fr, x=()):
 
 def sp_frozenset(it, fr, x=()):
     r = sp_set(it, fr, x)
+    if isinstance(r, SSet):
+        r = SSet(r.items, r.guards)
+        r.pytype = frozenset          # hashable; compared like a set
+        return r
     return frozenset(r) if not isinstance(r, Sym) else r
 
 
